@@ -353,8 +353,11 @@ def main(argv=None):
                 print("    note:", n)
     # ---- report
     exit_code = 0
+    printed = set()
     for o, f in knowns:
-        print(f"KNOWN-FINDING: property={prop} {f.get('what')}")
+        if f.get("key") not in printed:
+            printed.add(f.get("key"))
+            print(f"KNOWN-FINDING: property={prop} {f.get('what')}")
     per_unit = {}
     shown = []
     for u, o in violations:
